@@ -513,4 +513,247 @@ theorem h264_no_panic (max : Nat) (hmax : 3 ≤ max) (au : List NALU) : (h264Pac
     | none => rw [hr] at ih; cases ih
     | some r => simp [allSome, hr]
 
+/-! ### (b2) H264: lossless -/
+
+theorem allU8 (P : UInt8 → Prop) (h : ∀ n : Nat, n < 256 → P (UInt8.ofNat n)) (x : UInt8) : P x := by
+  have := h x.toNat (UInt8.toNat_lt x)
+  simpa using this
+
+set_option maxRecDepth 100000 in
+theorem fuInd_typ : ∀ hdr : UInt8, (fuInd hdr &&& 0x1F).toNat = 28 := by
+  apply allU8; decide
+
+set_option maxRecDepth 100000 in
+theorem fuB1_bits : ∀ hdr : UInt8, ∀ s f : Bool,
+    ((fuB1 hdr s f >>> 7) == 1) = s ∧ (((fuB1 hdr s f >>> 6) &&& 1) == 1) = f := by
+  apply allU8; decide
+
+set_option maxRecDepth 100000 in
+theorem fu_restore : ∀ hdr : UInt8, hdr &&& 0x80 = 0 → ∀ s f : Bool,
+    (((fuInd hdr >>> 5) &&& 3) <<< 5) ||| (fuB1 hdr s f &&& 0x1F) = hdr := by
+  apply allU8; decide
+
+/-- state of the decoder between two NAL units of a unit: nothing under reassembly, `fb` collected -/
+structure Ready (d : H264Dec) (fb : List NALU) : Prop where
+  frag : d.frag = none
+  unm : d.unmodelled = false
+  frame : d.frame = fb
+
+theorem contains4_of (n : Bytes) (h : containsSeq [0, 0, 0, 1] n = true) : containsSeq [0, 0, 1] n = true := by
+  induction n with
+  | nil => simp [containsSeq] at h
+  | cons x r ih =>
+    simp only [containsSeq, Bool.or_eq_true] at h ⊢
+    rcases h with h | h
+    · right
+      match r, h with
+      | y :: z :: w :: r3, h =>
+        simp only [List.isPrefixOf, Bool.and_eq_true, beq_iff_eq] at h
+        obtain ⟨_, hy, hz, hw, _⟩ := h
+        subst hy hz hw
+        simp [containsSeq, List.isPrefixOf]
+      | [], h => simp [List.isPrefixOf] at h
+      | [_], h => simp [List.isPrefixOf] at h
+      | [_, _], h => simp [List.isPrefixOf] at h
+    · exact Or.inr (ih h)
+
+theorem afterFU_clean (d : H264Dec) (n : Bytes) (h : containsSeq [0, 0, 1] n = false) :
+    afterFU d n = ({ d with frag := none }, .out [n]) := by
+  simp [afterFU, h]
+
+/-- packets of a batch: consecutive sequence numbers, marker only on the last one and only if `last` -/
+def numberM (ssrc seq : Nat) (last : Bool) : List Bytes → List Pkt
+  | [] => []
+  | c :: rest => ⟨ssrc, seq % two16, 0, last && rest.isEmpty, c⟩ :: numberM ssrc (seq + 1) last rest
+
+theorem number_markLast (ssrc seq : Nat) (l : List Bytes) :
+    number ssrc seq (markLast l) = numberM ssrc seq true l := by
+  induction l generalizing seq with
+  | nil => rfl
+  | cons c rest ih =>
+    cases rest with
+    | nil => simp [markLast, number, numberM, two32]
+    | cons c2 r2 =>
+      have hm : markLast (c :: c2 :: r2) = { marker := false, payload := c } :: markLast (c2 :: r2) := rfl
+      rw [hm]
+      simp only [number, numberM, ih]
+      simp [two32]
+
+theorem numberM_append (ssrc seq : Nat) (xs ys : List Bytes) (hy : ys ≠ []) :
+    numberM ssrc seq true (xs ++ ys) = numberM ssrc seq false xs ++ numberM ssrc (seq + xs.length) true ys := by
+  induction xs generalizing seq with
+  | nil => simp [numberM]
+  | cons c rest ih =>
+    simp only [List.cons_append, numberM, List.length_cons, ih (seq + 1)]
+    have : (rest ++ ys).isEmpty = false := by
+      cases rest with
+      | nil => cases ys with | nil => exact absurd rfl hy | cons _ _ => rfl
+      | cons _ _ => rfl
+    simp [this, show seq + 1 + rest.length = seq + (rest.length + 1) by omega]
+
+theorem numberM_ne (ssrc seq : Nat) (last : Bool) (l : List Bytes) (h : l ≠ []) :
+    numberM ssrc seq last l ≠ [] := by
+  cases l with
+  | nil => exact absurd rfl h
+  | cons c r => simp [numberM]
+
+theorem h264DecodeAll_cons (d : H264Dec) (p : Pkt) (l : List Pkt) (hl : l ≠ []) :
+    h264DecodeAll d (p :: l) =
+      match h264Decode d p with
+      | (d', .more) => h264DecodeAll d' l
+      | (d', r) => (d', r) := by
+  cases l with
+  | nil => exact absurd rfl hl
+  | cons q r => rfl
+
+/-- if feeding `xs` only ever answers "more", decoding goes on with the rest -/
+theorem h264DecodeAll_append (d d' : H264Dec) (xs ys : List Pkt)
+    (h : h264DecodeAll d xs = (d', .more)) : h264DecodeAll d (xs ++ ys) = h264DecodeAll d' ys := by
+  induction xs generalizing d with
+  | nil => simp [h264DecodeAll] at h; subst h; rfl
+  | cons p rest ih =>
+    cases rest with
+    | nil =>
+      simp only [h264DecodeAll] at h
+      cases ys with
+      | nil => simp [h264DecodeAll, h]
+      | cons y ys' =>
+        simp only [List.cons_append, List.nil_append]
+        rw [h264DecodeAll_cons _ _ _ (by simp), h]
+    | cons q rest' =>
+      rw [h264DecodeAll_cons _ _ _ (by simp)] at h
+      simp only [List.cons_append]
+      rw [h264DecodeAll_cons _ _ _ (by simp)]
+      cases hp : h264Decode d p with
+      | mk d1 r =>
+        rw [hp] at h
+        cases r with
+        | more => simp only at h ⊢; exact ih d1 h
+        | out a => simp only at h; cases h
+        | err => simp only at h; cases h
+
+/-- what one batch does to the decoder -/
+def BatchDec (d : H264Dec) (fb b : List NALU) (pkts : List Pkt) (last : Bool) : Prop :=
+  ∃ d', h264DecodeAll d pkts = (d', if last then .out (fb ++ b) else .more) ∧
+    (last = false → Ready d' (fb ++ b))
+
+theorem h264Decode_of_nalus (d d1 : H264Dec) (p : Pkt) (ns : List NALU) (hu : d.unmodelled = false)
+    (h : h264Nalus d p = (d1, .out ns)) :
+    h264Decode d p = if p.marker then ({ d1 with frame := [] }, .out (d1.frame ++ ns))
+                     else ({ d1 with frame := d1.frame ++ ns }, .more) := by
+  simp [h264Decode, hu, h]
+
+theorem h264Decode_of_more (d d1 : H264Dec) (p : Pkt) (hu : d.unmodelled = false)
+    (h : h264Nalus d p = (d1, .more)) : h264Decode d p = (d1, .more) := by
+  simp [h264Decode, hu, h]
+
+/-- single NAL unit packet -/
+theorem single_nalus (d : H264Dec) (p : Pkt) (hc : cleanNALU p.payload = true) :
+    h264Nalus d p = ({ d with frag := none }, .out [p.payload]) := by
+  unfold h264Nalus
+  cases hp : p.payload with
+  | nil => rw [hp] at hc; simp [cleanNALU] at hc
+  | cons b0 rest =>
+    rw [hp] at hc
+    unfold cleanNALU at hc
+    simp only [List.headD_cons, Bool.and_eq_true] at hc
+    obtain ⟨⟨⟨_, htyp⟩, hsc⟩, _⟩ := hc
+    have h4 : containsSeq [0, 0, 0, 1] (b0 :: rest) = false := by
+      cases h : containsSeq [0, 0, 0, 1] (b0 :: rest) with
+      | false => rfl
+      | true => rw [contains4_of _ h] at hsc; cases hsc
+    simp only
+    have ht : ¬ (24 ≤ (b0 &&& 0x1F).toNat ∧ (b0 &&& 0x1F).toNat ≤ 29) := by
+      intro hh
+      have h1 : decide (24 ≤ (b0 &&& 0x1F).toNat) = true := decide_eq_true hh.1
+      have h2 : decide ((b0 &&& 0x1F).toNat ≤ 29) = true := decide_eq_true hh.2
+      have h3 : (!(decide (24 ≤ (b0 &&& 0x1F).toNat) && decide ((b0 &&& 0x1F).toNat ≤ 29))) = true := htyp
+      rw [h1, h2] at h3
+      exact absurd h3 (by decide)
+    have e28 : ((b0 &&& 0x1F).toNat == 28) = false := beq_eq_false_iff_ne.mpr (by omega)
+    have e24 : ((b0 &&& 0x1F).toNat == 24) = false := beq_eq_false_iff_ne.mpr (by omega)
+    have e25 : ((b0 &&& 0x1F).toNat == 25) = false := beq_eq_false_iff_ne.mpr (by omega)
+    have e26 : ((b0 &&& 0x1F).toNat == 26) = false := beq_eq_false_iff_ne.mpr (by omega)
+    have e27 : ((b0 &&& 0x1F).toNat == 27) = false := beq_eq_false_iff_ne.mpr (by omega)
+    have e29 : ((b0 &&& 0x1F).toNat == 29) = false := beq_eq_false_iff_ne.mpr (by omega)
+    simp only [e28, e24, e25, e26, e27, e29, h4, Bool.false_eq_true, if_false, Bool.or_self]
+
+/-- body of a STAP-A packet -/
+def stapBody (b : List NALU) : Bytes := b.flatMap fun n => hi8 n.length :: lo8 n.length :: n
+
+theorem size_decode (n : Nat) (h : n < two16) : (hi8 n).toNat * 256 + (lo8 n).toNat = n := by
+  simp only [hi8, lo8, UInt8.toNat_ofNat', two16] at *
+  omega
+
+theorem stapBody_len (b : List NALU) : b.length ≤ (stapBody b).length := by
+  induction b with
+  | nil => simp [stapBody]
+  | cons n r ih =>
+    simp only [stapBody, List.flatMap_cons, List.length_append, List.length_cons] at ih ⊢
+    omega
+
+theorem parseStap_body (b : List NALU) (hb : b ≠ []) (hc : ∀ n ∈ b, n ≠ [] ∧ n.length < two16)
+    (fuel : Nat) (hf : b.length ≤ fuel) : parseStap fuel (stapBody b) = some b := by
+  induction b generalizing fuel with
+  | nil => exact absurd rfl hb
+  | cons n rest ih =>
+    cases fuel with
+    | zero => simp at hf
+    | succ f =>
+      have hn := hc n List.mem_cons_self
+      have hbody : stapBody (n :: rest) = hi8 n.length :: lo8 n.length :: (n ++ stapBody rest) := by
+        simp [stapBody]
+      rw [hbody]
+      unfold parseStap
+      simp only [size_decode n.length hn.2]
+      have hne : (n.length == 0) = false := by
+        cases n with
+        | nil => exact absurd rfl hn.1
+        | cons _ _ => simp
+      have hle : ¬ n.length > (n ++ stapBody rest).length := by simp
+      simp only [hne, Bool.false_eq_true, if_false, hle, List.take_left', List.drop_left']
+      cases rest with
+      | nil => simp [stapBody]
+      | cons m rest' =>
+        have hne2 : (stapBody (m :: rest')).isEmpty = false := by simp [stapBody]
+        simp only [hne2, Bool.false_eq_true, if_false]
+        rw [ih (by simp) (fun x hx => hc x (List.mem_cons_of_mem _ hx)) f (by simp at hf ⊢; omega)]
+        rfl
+
+/-- STAP-A packet -/
+theorem stap_nalus (d : H264Dec) (p : Pkt) (b : List NALU) (hp : p.payload = stapA b) (hb : b ≠ [])
+    (hc : ∀ n ∈ b, n ≠ [] ∧ n.length < two16) :
+    h264Nalus d p = ({ d with frag := none }, .out b) := by
+  unfold h264Nalus
+  rw [hp]
+  have : stapA b = 24 :: stapBody b := rfl
+  rw [this]
+  simp only
+  have h24 : ((24 : UInt8) &&& 0x1F).toNat = 24 := by decide
+  simp only [h24]
+  rw [parseStap_body b hb hc _ (Nat.le_succ_of_le (stapBody_len b))]
+  cases b with
+  | nil => exact absurd rfl hb
+  | cons n ns => rfl
+
+/-- FU-A packet -/
+theorem fu_nalus (d : H264Dec) (p : Pkt) (hdr : UInt8) (s f : Bool) (c : Bytes)
+    (hp : p.payload = fuHdr hdr s f ++ c) (hF : hdr &&& 0x80 = 0) :
+    h264Nalus d p =
+      if s then
+        (if f then afterFU d (hdr :: c)
+         else ({ d with frag := some (hdr :: c), next := (p.seq + 1) % two16 }, .more))
+      else
+        match d.frag with
+        | none => (d, .err)
+        | some acc =>
+          if p.seq != d.next then ({ d with frag := none }, .err)
+          else if f then afterFU d (acc ++ c)
+          else ({ d with frag := some (acc ++ c), next := (d.next + 1) % two16 }, .more) := by
+  unfold h264Nalus
+  rw [hp]
+  simp only [fuHdr, List.cons_append, List.nil_append, fuInd_typ, (fuB1_bits hdr s f).1,
+    (fuB1_bits hdr s f).2, fu_restore hdr hF s f]
+  rfl
+
 end MtxVerif.C23
